@@ -211,6 +211,10 @@ def judge(case: Dict[str, Any], res: Any) -> None:
         if resps:
             raise Violation("accepted_after_trigger", f"a connection opened after the trigger "
                             f"was served: {resps[0].status}", **tag)
+        # "stops accepting connections": the listening sockets are closed at the trigger, so an
+        # attempt made after it cannot even connect
+        raise Violation("listening_after_trigger", "a connection attempt made after the trigger "
+                        "was not refused (the listening socket was still open)", **tag)
     life = [i for i in res.instances if i.scope.get("type") == "lifespan"]
     if not life or not any(m["type"] == "lifespan.shutdown" for m in life[0].received):
         raise Violation("lifespan_shutdown_not_delivered", "", **tag)
